@@ -124,6 +124,23 @@ def families():
             yield "rep", ["<=", [S(("+", ab(2, e1)), ("+", ab(None, e2)), ("+", var(None, "z"))), S(("+", num(3)))]]
             yield "rep", [">=", [S(("+", num(6))), S(("+", ab(None, e2)), ("+", ab(3, e1)))]]
             yield "rep", ["<=", [S(("+", ab(None, e1))), S(("-", ab(None, e2)), ("+", num(2)))]]
+    # zero: absolute values with an explicit or accumulated zero coefficient on the side that gets negated; cancel: the variable of an
+    # absolute value also occurs outside it, so that one sign combination cancels every variable
+    for e in inner[:3]:
+        for c in (None, 2):
+            yield "rep", ["<=", [S(("+", ab(c, e))), S(("+", ab(None, e)), ("-", ab(None, e)), ("+", num(4)))]]
+            yield "rep", ["<=", [S(("+", ab(c, e))), S(("+", num(3)), ("+", ab(0, e)))]]
+            yield "rep", ["<=", [S(("+", ab(c, e)), ("+", ab(None, inner[3]))), S(("+", num(6)), ("-", par(None, S(("+", ab(None, inner[3])), ("-", ab(None, inner[3]))))))]]
+            yield "rep", [">=", [S(("+", ab(None, e)), ("-", ab(None, e)), ("+", num(4))), S(("+", ab(c, e)))]]
+    for k in (1, -1, 0, 2):
+        for c in (None, 2):
+            yield "rep", ["<=", [S(("+", ab(c, S(("+", var(None, "x"))))), ), S(("+", var(None, "x")), ("+", num(k)) if k >= 0 else ("-", num(-k)))]]
+            yield "rep", ["<=", [S(("+", ab(c, S(("+", var(None, "x")), ("-", var(None, "y"))))), ), S(("+", var(None, "x")), ("-", var(None, "y")), ("+", num(k)) if k >= 0 else ("-", num(-k)))]]
+    for a, b, k in ((1, 1, 1), (1, 1, 2), (1, 1, 4), (1, 2, 1), (2, 1, 3)):
+        e1 = S(("+", var(None, "x")), ("-", num(a)))
+        e2 = S(("+", var(None, "x")), ("+", num(b)))
+        yield "rep", ["<=", [S(("+", ab(None, e1)), ("+", ab(None, e2))), S(("+", num(k)))]]
+        yield "rep", ["<=", [S(("+", ab(None, e1))), S(("-", ab(None, e2)), ("+", num(k)))]]
     # par: parenthesised linear and absolute sides
     for e in inner[:5]:
         for c in (None, 2, 0.5):
